@@ -46,22 +46,45 @@ def _pat_info(p):
 
 
 class SymMatch:
-    def __init__(self, subject, spans, pos0, endpos):
+    def __init__(self, subject, spans, pos0, endpos, names=None, pat=None):
         self._s = subject
         self._spans = spans         # list indexed by group number
         self.pos = pos0
         self.endpos = endpos
         self.string = subject
+        self._names = dict(names or {})     # group name -> number
+        self.re = pat
+
+    def _g(self, g):
+        if isinstance(g, str):
+            if g not in self._names:
+                raise IndexError('no such group')
+            return self._names[g]
+        if not 0 <= g < len(self._spans):
+            raise IndexError('no such group')
+        return g
 
     def _span(self, g):
-        return self._spans[g]
+        return self._spans[self._g(g)]
+
+    def groupdict(self, default=None):
+        return dict((n, self.group(n) if self._spans[k] is not None
+                     else default) for n, k in self._names.items())
+
+    @property
+    def lastindex(self):
+        last = None
+        for k in range(1, len(self._spans)):
+            if self._spans[k] is not None:
+                last = k
+        return last
 
     def group(self, *gs):
         if not gs:
             gs = (0,)
         out = []
         for g in gs:
-            sp = self._spans[g]
+            sp = self._spans[self._g(g)]
             out.append(None if sp is None else _slice(self._s, sp[0], sp[1]))
         return out[0] if len(out) == 1 else tuple(out)
 
@@ -72,15 +95,15 @@ class SymMatch:
                      for sp in self._spans[1:])
 
     def start(self, g=0):
-        sp = self._spans[g]
+        sp = self._spans[self._g(g)]
         return -1 if sp is None else sp[0]
 
     def end(self, g=0):
-        sp = self._spans[g]
+        sp = self._spans[self._g(g)]
         return -1 if sp is None else sp[1]
 
     def span(self, g=0):
-        sp = self._spans[g]
+        sp = self._spans[self._g(g)]
         return (-1, -1) if sp is None else sp
 
     def __bool__(self):
@@ -461,7 +484,8 @@ def _do(p, s, mode, pos=0, endpos=None):
                 break
     if sp is None:
         return None
-    return SymMatch(s, sp, pos, len(items))
+    return SymMatch(s, sp, pos, len(items),
+                    names=getattr(p, 'groupindex', None), pat=p)
 
 
 def _sub(p, repl, s, count=0):
